@@ -1092,6 +1092,10 @@ impl CanonicalizeContext {
 								// don't increment 'i' because there is one less child now and so everything shifted left
 							},
 							Some(new_child) => {
+								if child.parent().and_then(|parent| parent.element()) != Some(mathml) {
+									// cleaning moved the child (an mrow of pseudo-scripts becomes the script of the preceding child)
+									return self.clean_mathml(mathml);	// restart cleaning
+								}
 								let new_child_name = name(&new_child);
 								children = mathml.children();				// clean_mathml(child) may have changed following siblings
 								// debug!("new_child (i={})\n{}", i, mml_to_string(&new_child));
@@ -2468,7 +2472,8 @@ impl CanonicalizeContext {
 				}
 				if name(&parent) == "mrow" {
 					mrow.set_attribute_value("data-pseudo-script", "true");
-					return handle_pseudo_scripts(parent);
+					handle_pseudo_scripts(parent);		// makes 'mrow' the script of the preceding child (inside a new msup)
+					return mrow;
 				} else {
 					return mrow;	// FIX: what should happen?
 				}
